@@ -444,10 +444,11 @@ def run(ctx):
         ("Diffuse", 33.0, "power", "mono", 5.0, 0.0005, 400, True),
         ("Target", 525.0, None, None, 10.0, 0.0005, 3000, True),
         ("Target", 33.0, 10.5, None, 3.0, 0.0005, 4000, False),
+        ("Diffuse", 1000.0, "power1", "map", 2.0, 0.001, 600, True),  # the 1/E spectrum has its own branch in every spectrum factor
     ]
     if T:
         runs += [
-            ("Diffuse", 1000.0, "power1", "map", 2.0, 0.001, 600, True),
+            ("Target", 1000.0, "power1", None, 2.0, 0.0, 3000, True),
             ("Diffuse", 525.0, 9.5, None, 10.0, 5.0, 500, False),
             ("Diffuse", 33.0, 11.0, "mono", 100.0, 0.0001, 500, True),
             ("Diffuse", 2000.0, "power", None, 1.0, 0.001, 500, True),
